@@ -214,9 +214,9 @@ func VerifHarness_Rules() {
 	errors.VerifTag("rule", c.what)
 	verifDebug("program", c.code)
 	var an verifAnalysis
-	panicked, _ := errors.VerifPanics(func() { an = verifAnalyze(c.code, nil, nil, true) })
+	panicked, pmsg := errors.VerifPanics(func() { an = verifAnalyze(c.code, nil, nil, true) })
 	if panicked {
-		errors.VerifReached("analyzer-panicked") // C05's subject
+		vrAnalyzerPanicked(pmsg)
 		return
 	}
 	errors.VerifReached("analyzed")
@@ -269,9 +269,9 @@ func VerifHarness_ExprTypes() {
 	errors.VerifTag("expr", vrTypes[t1]+" "+op+" "+vrTypes[t2])
 	code := vrMain("  let v = " + vrLits[t1] + " " + op + " " + vrLits[t2] + ";\n  println(v);\n")
 	var an verifAnalysis
-	panicked, _ := errors.VerifPanics(func() { an = verifAnalyze(code, nil, nil, true) })
+	panicked, pmsg := errors.VerifPanics(func() { an = verifAnalyze(code, nil, nil, true) })
 	if panicked {
-		errors.VerifReached("analyzer-panicked")
+		vrAnalyzerPanicked(pmsg)
 		return
 	}
 	errors.VerifReached("analyzed")
@@ -427,9 +427,9 @@ func VerifHarness_Diverge() {
 	}
 	verifDebug("program", code)
 	var an verifAnalysis
-	panicked, _ := errors.VerifPanics(func() { an = verifAnalyze(code, nil, nil, true) })
+	panicked, pmsg := errors.VerifPanics(func() { an = verifAnalyze(code, nil, nil, true) })
 	if panicked {
-		errors.VerifReached("analyzer-panicked") // C05's subject
+		vrAnalyzerPanicked(pmsg)
 		return
 	}
 	errors.VerifReached("analyzed")
@@ -479,9 +479,9 @@ func VerifHarness_AssignRules() {
 	errors.VerifTag("stmt", vrTypes[t1]+" "+op+"= "+vrTypes[t2])
 	code := vrMain("  let v = " + vrLits[t1] + ";\n  v " + op + "= " + vrLits[t2] + ";\n  println(v);\n")
 	var an verifAnalysis
-	panicked, _ := errors.VerifPanics(func() { an = verifAnalyze(code, nil, nil, true) })
+	panicked, pmsg := errors.VerifPanics(func() { an = verifAnalyze(code, nil, nil, true) })
 	if panicked {
-		errors.VerifReached("analyzer-panicked")
+		vrAnalyzerPanicked(pmsg)
 		return
 	}
 	errors.VerifReached("analyzed")
@@ -502,4 +502,15 @@ func VerifHarness_AssignRules() {
 	}
 	errors.VerifAssert("admissible-compound-assignment-accepted", !an.hasError)
 	errors.VerifReached("accepted")
+}
+
+// vrAnalyzerPanicked: a crash of the analyzer is C05's subject. The rule harnesses are also registered under C05
+// (param totality=1), where the crash is the violation; under C03 the path is only counted.
+func vrAnalyzerPanicked(msg string) {
+	if errors.VerifParam("totality", 0) == 1 {
+		errors.VerifTag("panic", errors.VerifNorm(msg))
+		errors.VerifTag("site", errors.VerifPanicSite())
+		errors.VerifAssert("analysis-never-panics", false)
+	}
+	errors.VerifReached("analyzer-panicked")
 }
